@@ -263,6 +263,38 @@ def check_c07(tier, seed):
                     ["single-block functions are tied to the specification by C01/C02", "block counts above 3P+1 are not run (loop structure argument, DESIGN.md 4/C07)"])
 
 
+def check_c09(tier, seed):
+    v = Verdict("C09", tier, seed)
+    st = new_stage()
+    merged = Merged()
+    builds = ["shipped", "w32ua0"] if tier == "thorough" else ["shipped"]
+    libs = run_parallel([lambda n=n: mkbuild(n).build(st, jobs=8) for n in builds], workers=2)
+    srcs = ["common.c", "pin.c", "families.c", "alloc.c", "obj.c", "mc.c", "h_buf.c"]
+    vg = ["valgrind", "-q", "--tool=memcheck", "--undef-value-errors=no", "--partial-loads-ok=no", "--error-limit=no", "--num-callers=10", "--error-exitcode=0"]
+    per = {}
+    for lib in libs:
+        binary = build_harness(st, lib, "buf", srcs, wraps=MC_WRAPS, ref=False)
+        for sub, shards in (("single", 6), ("setup", 1), ("bulk", NCPU)):
+            args = ["--sub", sub, "--tier", tier, "--seed", str(seed), "--label", lib.name, "--maxbe", str(lib.maxbe)]
+            spec = {"sources": srcs, "special": "c09", "build": lib.name, "args": args}
+            m = Merged()
+            for res in run_sharded(binary, args, st, "buf-%s-%s" % (sub, lib.name), nshards=shards, prefix=vg, timeout=7200):
+                m.add(res, spec); merged.add(res, spec)
+            v.handle(m, None)
+            per["%s/%s" % (lib.name, sub)] = m.evaluations
+    uv = [val for k, val in merged.notes.items() if k.startswith("under_valgrind")]
+    if not uv or any(x == 0 for x in uv):
+        raise EngineError("harness did not run under valgrind")
+    cov = {"evaluations": merged.evaluations, "distinct_nontrivial": merged.distinct,
+           "rule": "every public function with buffer arguments, every back end, run under valgrind memcheck on the shipped gcc -O3 objects: single-block functions with input x output at all 32x32 alignment offsets "
+                   "and every overlap offset -B..+B; key / tweak / counter arguments of every legal length at alignment offsets 0..31 flush against NOACCESS; CTR and parallel bulk calls over LENS with input and output "
+                   "alignments (quick: 32+32 per length, thorough: 32x32) and exact aliasing at all 32 offsets; each buffer is surrounded by NOACCESS red zones (byte exact); oracle: no memcheck addressability error, "
+                   "canaries intact, result equal to the aligned non-overlapping call; distinct = distinct placements",
+           "samples": merged.samples, "evaluations_per_part": per, "builds": [l.describe() for l in libs]}
+    return v.finish("exploration", cov, ["alignment offsets above 31 are not run (no code path keys on more)", "partial overlap of bulk buffers is not promised and not run",
+                                         "uninitialised-value errors are disabled here (C11's subject)"])
+
+
 def check_c10(tier, seed):
     v = Verdict("C10", tier, seed)
     st = new_stage()
@@ -281,6 +313,81 @@ def check_c10(tier, seed):
                    "Runs on the shipped, 32-bit-word and -O0 builds; distinct = distinct (entry point, back end, length, key) cases" % ("" if tier == "thorough" else " 17th"),
            "samples": merged.samples, "evaluations_per_build": per, "builds": [l.describe() for l in libs]}
     return v.finish("exploration", cov, ["lengths between 65 and UINT_MAX other than the listed ones are not run (validation is a pair of comparisons)"])
+
+
+C11_SUBS = [("h_dp.c", "c01", False), ("h_dp.c", "c02", False), ("h_dp.c", "c04", False), ("h_par.c", "c07", True),
+            ("h_keylen.c", "c10", True), ("h_ctr.c", "c05", True), ("h_sched.c", "c04", True)]
+
+
+def check_c11(tier, seed):
+    v = Verdict("C11", tier, seed)
+    st = new_stage()
+    merged = Merged()
+    msan_flags = "-O1 -g -fsanitize=memory -fsanitize-memory-track-origins=2 -fno-omit-frame-pointer"
+    builds = run_parallel([lambda: mkbuild("msan", cc="clang", common=msan_flags + " -Wall").build(st, jobs=5),
+                           lambda: mkbuild("shipped").build(st, jobs=5), lambda: mkbuild("O0").build(st, jobs=5)], workers=3)
+    msan, shipped, o0 = builds
+    env = dict(os.environ); env["MSAN_OPTIONS"] = "exitcode=77:halt_on_error=1"
+    per = {}
+    subs = C11_SUBS if tier == "thorough" else [x for x in C11_SUBS if x[1] != "c04"]
+    # quick: a deterministic part of each enumeration (the first shards of the usual split)
+    part = None if tier == "thorough" else 3
+    work = []
+    # (a) MemorySanitizer: explicit shadow tests on everything the API returns
+    def one_msan(src, sub, mc):
+        sources = (MC_SRC if mc else COMMON_SRC) + [src]
+        binary = build_harness(st, msan, "msan-" + sub + src[2:-2], sources, cc="clang", cflags=msan_flags + " -Wall -Wextra -Wno-unused-parameter",
+                               wraps=MC_WRAPS if mc else WRAP_PIN)
+        args = ["--sub", sub, "--tier", "quick", "--seed", str(seed), "--label", "msan", "--maxbe", str(msan.maxbe), "--paint", "0"]
+        m = Merged()
+        for res in run_sharded(binary, args, st, "msan-%s-%s" % (sub, src[2:-2]), nshards=NCPU, env=env, timeout=3000, only=part):
+            m.add(res, None)
+        return ("msan", src, sub, None, 0, m)
+    for src, sub, mc in subs:
+        work.append(lambda src=src, sub=sub, mc=mc: one_msan(src, sub, mc))
+    # (b) paint differential: stack / caller objects painted 0x00 vs 0xA5, at -O3 and -O0
+    sums = {}
+
+    def one_paint(lib, src, sub, mc, paint):
+        sources = (MC_SRC if mc else COMMON_SRC) + [src]
+        binary = build_harness(st, lib, "paint-%s%s-%d" % (sub, src[2:-2], paint), sources, wraps=MC_WRAPS if mc else WRAP_PIN)
+        args = ["--sub", sub, "--tier", "quick", "--seed", str(seed), "--label", lib.name, "--maxbe", str(lib.maxbe), "--paint", str(paint)]
+        m = Merged()
+        for res in run_sharded(binary, args, st, "paint-%s-%s-%s-%d" % (lib.name, sub, src[2:-2], paint), nshards=NCPU, timeout=3000, only=part):
+            m.add(res, None)
+        return ("paint", src, sub, lib, paint, m)
+    for lib in (shipped, o0):
+        for src, sub, mc in subs:
+            for paint in (0, 165):
+                work.append(lambda lib=lib, src=src, sub=sub, mc=mc, paint=paint: one_paint(lib, src, sub, mc, paint))
+    for kind, src, sub, lib, paint, m in run_parallel(work, workers=4):
+        v.handle(m, None)
+        if kind == "msan":
+            per["msan/%s/%s" % (src, sub)] = m.evaluations + m.transitions
+            merged.evaluations += m.evaluations; merged.transitions += m.transitions; merged.distinct += m.distinct; merged.states += m.states
+            merged.samples += [x for x in m.samples if x not in merged.samples][:2]
+        else:
+            sums[(src, sub, lib.name, paint)] = m.out_sums
+            per["paint/%s/%s/%s/%02x" % (lib.name, src, sub, paint)] = m.evaluations + m.transitions
+    ncmp = 0
+    for src, sub, mc in subs:
+        ref = sums[(src, sub, "shipped", 0)]
+        for key, val in sums.items():
+            if key[0] != src or key[1] != sub:
+                continue
+            for tag in set(ref) | set(val):
+                ncmp += 1
+                if ref.get(tag) != val.get(tag):
+                    v.new.append({"sig": "C11/results-depend-on-memory-contents/%s" % tag, "case": "", "label": key[2], "replay": None,
+                                  "detail": "digest of all '%s' results of the %s/%s histories differs between (shipped -O3, paint 0x00) and (%s, paint 0x%02x): %s vs %s"
+                                            % (tag, src, sub, key[2], key[3], ref.get(tag), val.get(tag))})
+    cov = {"evaluations": merged.evaluations + merged.transitions, "distinct_nontrivial": merged.distinct + merged.states,
+           "rule": "the quick histories of C01, C02, C04, C05, C07 and C10 executed (a) in a clang MemorySanitizer build (origins tracked) with an explicit shadow test on every output block, key schedule, "
+                   "context image and return value, caller objects and the stack below each call poisoned; (b) in the shipped -O3 and the -O0 builds twice each with the stack below every call and the caller's "
+                   "objects painted 0x00 vs 0xA5: the digests of everything returned must be bit-identical across the four runs; distinct = distinct cases of those histories",
+           "samples": merged.samples[:6], "runs": per, "digest_comparisons": ncmp, "result_tags": sorted(set(t for val in sums.values() for t in val)),
+           "builds": [b.describe() for b in builds]}
+    return v.finish("exploration", cov, ["paths not in those histories are not covered", "heap blocks come from calloc (zeroed) in every back end; malloc'ed blocks would be painted by the allocator seam"])
 
 
 def check_c15(tier, seed):
@@ -532,7 +639,9 @@ REGISTRY = {
     "C06": check_c06,
     "C07": check_c07,
     "C08": check_c08,
+    "C09": check_c09,
     "C10": check_c10,
+    "C11": check_c11,
     "C14": check_c14,
     "C15": check_c15,
     "C16": check_c16,
